@@ -67,7 +67,8 @@ class ExportStatus:
 
 
 # ------------------------------------------------------------------------------------------ Context (C07 / C12 own them)
-from contracts.c02 import (PROT, VIEW_PROT, ISM, LID, LOCAL, master, sees_running, valid, coupled)
+from contracts.c02 import (PROT, VIEW_PROT, ISM, LID, LOCAL, master, sees_running, valid, coupled, but_view,
+                           but_wiring)
 
 
 def instance_states_step(s, o, frm, to):
@@ -96,7 +97,7 @@ class InvalidateFailed:
     returns = 'Tuple[List[str], Set[ProcessStatus]]'
 
     def modifies(self):
-        return [everything_but(*PROT)]
+        return [but_wiring(self)]
 
     def post_step(self, old):
         return instance_states_step(self, old.self, (SupvisorsInstanceStates.FAILED,),
@@ -117,7 +118,7 @@ class ActivateChecked:
     raises = ()
 
     def modifies(self):
-        return [everything_but(*PROT)]
+        return [but_wiring(self)]
 
     def post_step(self, old):
         return instance_states_step(self, old.self, (SupvisorsInstanceStates.CHECKED,),
@@ -152,6 +153,16 @@ class AcceptMaster:
         return [field(LOCAL(self), 'master_identifier')]
 
 
+@contract('statemodes:SupvisorsStateModes.evaluate_stability', props=[])
+class EvaluateStability:
+    """only the stability synthesis is written (C01 clause 4 states its value)"""
+    assumed = True
+    raises = ()
+
+    def modifies(self):
+        return [field(self, 'stable_identifiers')]
+
+
 @contract('internal_com.mapper:SupvisorsMapper.core_identifiers[getter]', props=[])
 class CoreIdentifiers:
     """C18: the configured core identifiers filtered against the known instances"""
@@ -181,7 +192,7 @@ class CommanderOnInstancesInvalidation:
     raises = ()
 
     def modifies(self, invalidated_identifiers, failed_processes):
-        return [everything_but(*VIEW_PROT)]
+        return [but_view(self)]
 
     def post_view(self, old):
         return view_kept(self, old.self)
@@ -193,7 +204,7 @@ class CommanderCheck:
     raises = ()
 
     def modifies(self):
-        return [everything_but(*VIEW_PROT)]
+        return [but_view(self)]
 
     def post_view(self, old):
         return view_kept(self, old.self)
@@ -206,7 +217,7 @@ class StarterStartApplications:
     raises = ()
 
     def modifies(self):
-        return [everything_but(*VIEW_PROT)]
+        return [but_view(self)]
 
     def post_view(self, old):
         return view_kept(self, old.self)
@@ -219,7 +230,7 @@ class StopperStopApplications:
     raises = ()
 
     def modifies(self):
-        return [everything_but(*VIEW_PROT)]
+        return [but_view(self)]
 
     def post_view(self, old):
         return view_kept(self, old.self)
@@ -232,7 +243,7 @@ class FailureAddDefaultJob:
     raises = ()
 
     def modifies(self, process):
-        return [everything_but(*VIEW_PROT)]
+        return [but_view(self)]
 
     def post_view(self, old):
         return view_kept(self, old.self)
@@ -245,7 +256,7 @@ class FailureTriggerJobs:
     raises = ()
 
     def modifies(self):
-        return [everything_but(*VIEW_PROT)]
+        return [but_view(self)]
 
     def post_view(self, old):
         return view_kept(self, old.self)
@@ -258,10 +269,10 @@ class ConciliateConflicts:
     raises = ()
     types = {'supvisors': 'Supvisors', 'strategy': 'ConciliationStrategies', 'conflicts': 'List[ProcessStatus]'}
 
-    def modifies(self, supvisors, strategy, conflicts):
-        return [everything_but(*VIEW_PROT)]
+    def modifies(supvisors, strategy, conflicts):
+        return [but_view(supvisors.fsm)]
 
-    def post_view(self, supvisors, old):
+    def post_view(supvisors, old):
         return view_kept(supvisors.fsm, old.supvisors.fsm)
 
 
